@@ -3,6 +3,7 @@
 mod tgen;
 mod c01;
 mod c04;
+mod c02;
 
 use vh_common::{Args, Report, Rng};
 
@@ -29,6 +30,58 @@ fn main() {
     let mut report = Report::default();
     match args.prop.as_str() {
         "probe" => { probe(&args); return; }
+        "phase-probe" => {
+            let n: usize = args.extra.get("n").and_then(|s| s.parse().ok()).unwrap_or(16000);
+            let l = args.extra.get("ladder").cloned().unwrap_or("dot-chain".into());
+            let text = c02::ladder(&l, n).unwrap();
+            let h = std::thread::Builder::new().stack_size(2 * 1024 * 1024).spawn(move || {
+                let t0 = std::time::Instant::now();
+                let (toks, evs, _) = emmylua_parser::LuaParser::verif_parse_events(&text, emmylua_parser::ParserConfig::default());
+                let t1 = t0.elapsed();
+                eprintln!("n={n} tokens={} events={} lex+parse={:?}", toks.len(), evs.len(), t1);
+                let mut b = emmylua_parser::LuaTreeBuilder::new(&text, evs.clone(), None);
+                b.build();
+                let t2 = t0.elapsed();
+                eprintln!("build={:?}", t2 - t1);
+                let g = b.finish();
+                let t3 = t0.elapsed();
+                eprintln!("finish={:?}", t3 - t2);
+                let root = emmylua_parser::LuaSyntaxNode::new_root(g.clone());
+                let ok = root.text() == text.as_str();
+                eprintln!("text eq {ok} {:?}", t0.elapsed() - t3);
+                let mut depth = 0usize; let mut maxd = 0usize; let mut deepest = None;
+                for ev in root.preorder() {
+                    match ev {
+                        rowan::WalkEvent::Enter(n) => { depth += 1; if depth > maxd { maxd = depth; deepest = Some(n.kind()); } }
+                        rowan::WalkEvent::Leave(_) => depth -= 1,
+                    }
+                }
+                eprintln!("max tree depth {maxd} {:?}", deepest);
+                if std::env::var("SHOW").is_ok() { let mut s = String::new(); c01::sexpr(&root, &mut s); eprintln!("{}", &s[..s.len().min(3000)]); }
+                drop(root);
+                drop(g);
+                eprintln!("dropped");
+            }).unwrap();
+            let _ = h.join();
+            return;
+        }
+        "deep-probe" => {
+            let n: usize = args.extra.get("n").and_then(|s| s.parse().ok()).unwrap_or(16000);
+            let mode = args.extra.get("mode").cloned().unwrap_or_default();
+            let text = format!("x = a{}", ":b()".repeat(n));
+            let h = std::thread::Builder::new().stack_size(2 * 1024 * 1024).spawn(move || {
+                let tree = emmylua_parser::LuaParser::parse(&text, emmylua_parser::ParserConfig::default());
+                eprintln!("parsed");
+                if mode == "forget" { std::mem::forget(tree); eprintln!("forgot"); return; }
+                if mode == "text" { let ok = tree.get_red_root().text() == text.as_str(); eprintln!("text {ok}"); std::mem::forget(tree); return; }
+                drop(tree);
+                eprintln!("dropped");
+            }).unwrap();
+            let _ = h.join();
+            return;
+        }
+        "c02-child" => { c02::child_main(); return; }
+        "C02" => c02::run(&args, &mut report),
         "C01" => c01::run(&args, &mut report),
         "C04" => c04::run(&args, &mut report),
         other => {
